@@ -609,7 +609,9 @@ Example ex_dead : Dead 1 (run_ops cfg_off ex_ops0 world0) /\
   map r_gen (w_log (run_ops cfg_off (ex_ops0 ++ [OState 1; OEvent 1]) world0)) = [1; 3; 1; 3; 1; 3; 3].
 Proof.
   split; [|vm_compute; reflexivity].
-  change (run_ops cfg_off ex_ops0 world0) with
-    (settle (run_ops cfg_off [OCtxAuto 0 true; ODefine 0 false (wit_spec [w_ab; w_cd]); ODefine 0 false (wit_spec [w_ab]); OSettle; OState 1; ODropped 1] world0)).
+  assert (E : run_ops cfg_off ex_ops0 world0 =
+    settle (run_ops cfg_off [OCtxAuto 0 true; ODefine 0 false (wit_spec [w_ab; w_cd]); ODefine 0 false (wit_spec [w_ab]); OSettle; OState 1; ODropped 1] world0))
+    by (vm_compute; reflexivity).
+  rewrite E.
   apply dead_after_settle; vm_compute; [intros [H|[]]; discriminate|reflexivity].
 Qed.
